@@ -7,7 +7,8 @@ RULE = (
     "Editing sessions (walks over all configurations incl. per-axis position, 2D/3D, +-"
     "segmentation) during and after which the current tracks are round-tripped: CSV "
     "(export_to_csv -> read_csv -> tracks_from_df with the explicit map time:t, pos:[z]yx, id, "
-    "parent_id, track_id; with the segmentation when positions lie on their labels), GEFF "
+    "parent_id, track_id; with the segmentation when positions lie on their labels; and the "
+    "display-name CSV with the map built from the registry's display / value names), GEFF "
     "(export_to_geff -> import_from_geff with explicit map incl. track/lineage ids and the custom "
     "feature, exported segmentation, same scale, loaded area/shape features), internal "
     "(save_tracks -> load_tracks). Oracle: same nodes, edges, times, positions (atol 1e-9), track "
@@ -20,6 +21,6 @@ RULE = (
 ASSUMPTIONS = ["CSV/GEFF import with segmentation only when every node's truncated scaled position lies on its own label "
                "(the importer's documented validation); the rest is round-tripped without segmentation (excluded counter)",
                "empty tracks are not exported"]
-REQUIRED_CLASSES = {t: ["roundtrip:csv", "roundtrip:geff", "roundtrip:internal", "roundtrip_after_edits",
+REQUIRED_CLASSES = {t: ["roundtrip:csv", "roundtrip:csvdisplay", "roundtrip:geff", "roundtrip:internal", "roundtrip_after_edits",
                         "cfg:per_axis_pos", "cfg:3D"] for t in ("quick", "thorough")}
 run_shard, replay, minimise = make(C14Oracle, quick=(320, 12), thorough=(2400, 25), profile="general")
